@@ -483,7 +483,7 @@ func (c *Conn) receive(ctx context.Context) error {
 
 func (c *Conn) handleBootstrap(ctx context.Context, id answerID) error {
 	c.mu.Lock()
-	if c.answers[id] != nil {
+	if c.answerIDInUse(id) {
 		c.mu.Unlock()
 		return errorf("incoming bootstrap: answer ID %d reused", id)
 	}
@@ -568,7 +568,7 @@ func (c *Conn) handleCall(ctx context.Context, call rpccp.Call, releaseCall capn
 
 	// Acquire c.mu and sender lock.
 	c.mu.Lock()
-	if c.answers[id] != nil {
+	if c.answerIDInUse(id) {
 		c.mu.Unlock()
 		releaseCall()
 		return errorf("incoming call: answer ID %d reused", id)
